@@ -221,9 +221,13 @@ class Ombott:
 
     def default_error_handler(self, res):
         if self.request.is_json_requested:
+            try:
+                ex = repr(res.exception)
+            except Exception:
+                ex = f'<unprintable {type(res.exception)} object>'
             ret = json.dumps(dict(
                 body = res.body,
-                exception = repr(res.exception),
+                exception = ex,
                 traceback = res.traceback
             ))
             self.response.headers['Content-Type'] = 'application/json'
